@@ -84,4 +84,143 @@ theorem dqRegular_eq_sb (dlo alo : List Nat) (d0 d1 m0 m1 n1 dinv : Nat) (hlen :
   · rw [if_pos h, if_pos (e2.mp h)]
   · rw [if_neg h, if_neg (fun h' => h (e2.mpr h'))]
 
+theorem dqStepA_eq (dlo alo : List Nat) (d0 d1 m0 m1 n1 dinv : Nat) (hlen : alo.length = dlo.length) :
+    dqStepA (dlo ++ [d0, d1]) d1 d0 dinv (alo ++ [m0, m1]) n1 =
+      if n1 = d1 ∧ m1 = d0 then sbSpecial (dlo ++ [d0, d1]) (alo ++ [m0, m1])
+      else dqRegular (dlo ++ [d0, d1]) d1 d0 dinv (alo ++ [m0, m1]) n1 := by
+  unfold dqStepA
+  simp only [len_top]
+  rw [← hlen]
+  simp only [getD_top1]
+
+/-- one iteration of the first loop of mpn_sb_div_q = one iteration of mpn_sb_div_qr -/
+theorem dqStepA_spec (dlo alo : List Nat) (d0 d1 m0 m1 n1 dinv : Nat) (hlen : alo.length = dlo.length)
+    (hdlo : Limbs dlo) (halo : Limbs alo) (hd0 : d0 < B) (hd1 : d1 < B) (hm0 : m0 < B) (hm1 : m1 < B)
+    (hn1 : n1 < B) (hnorm : B / 2 ≤ d1) (hdinv : dinv = invert_pi1 d1 d0)
+    (hW : val (alo ++ [m0, m1]) + B ^ (dlo.length + 2) * n1 < B * val (dlo ++ [d0, d1])) :
+    ∃ q w n1', dqStepA (dlo ++ [d0, d1]) d1 d0 dinv (alo ++ [m0, m1]) n1 = (q, w, n1') ∧
+      val (alo ++ [m0, m1]) + B ^ (dlo.length + 2) * n1
+        = q * val (dlo ++ [d0, d1]) + (val w + B ^ (dlo.length + 1) * n1') ∧
+      val w + B ^ (dlo.length + 1) * n1' < val (dlo ++ [d0, d1]) ∧
+      q < B ∧ Limbs w ∧ w.length = dlo.length + 1 ∧ n1' < B := by
+  rw [dqStepA_eq _ _ _ _ _ _ _ _ hlen]
+  by_cases h : n1 = d1 ∧ m1 = d0
+  · obtain ⟨rfl, rfl⟩ := h
+    rw [if_pos ⟨rfl, rfl⟩]
+    obtain ⟨w, n1', e, h1, h2, h3, h4, h5⟩ := sbSpecial_spec dlo alo m1 n1 m0 hlen hdlo halo hd0 hd1 hm0 hnorm hW
+    exact ⟨_, w, n1', e, h1, h2, by have := B_pos; omega, h3, h4, h5⟩
+  · rw [if_neg h]
+    have hN : n1 * B + m1 < d1 * B + d0 := by
+      have hW' := hW
+      rw [val_top2, val_top2, hlen, pow_k2] at hW'
+      have := top2_le (B ^ dlo.length) (val alo) (val dlo) (d0 + B * d1) m0 m1 n1 (by have := B_pos; positivity)
+        (val_lt dlo hdlo) hW'
+      simp only [B_eq] at *; omega
+    rw [dqRegular_eq_sb dlo alo d0 d1 m0 m1 n1 dinv hlen hdlo halo hd0 hd1 hm0 hm1 hn1 hnorm hdinv hN]
+    exact sbRegular_spec dlo alo d0 d1 m0 m1 n1 dinv hlen hdlo halo hd0 hd1 hm0 hm1 hn1 hnorm hdinv hN
+
+theorem dqLoopA_cons (dp : List Nat) (d1 d0 dinv x : Nat) (xs w : List Nat) (n1 : Nat) (qs : List Nat) :
+    dqLoopA dp d1 d0 dinv (x :: xs) w n1 qs =
+      dqLoopA dp d1 d0 dinv xs (dqStepA dp d1 d0 dinv (x :: w) n1).2.1 (dqStepA dp d1 d0 dinv (x :: w) n1).2.2
+        ((dqStepA dp d1 d0 dinv (x :: w) n1).1 :: qs) := rfl
+
+/-- invariant of the first loop sb_div_q.c:80-109 (that of sb_div_qr.c:75-102) -/
+theorem dqLoopA_spec (dlo : List Nat) (d0 d1 dinv : Nat) (hdlo : Limbs dlo) (hd0 : d0 < B) (hd1 : d1 < B)
+    (hnorm : B / 2 ≤ d1) (hdinv : dinv = invert_pi1 d1 d0) :
+    ∀ (xs w : List Nat) (n1 : Nat) (qs : List Nat), Limbs xs → Limbs w → w.length = dlo.length + 1 → n1 < B →
+      val w + B ^ (dlo.length + 1) * n1 < val (dlo ++ [d0, d1]) →
+      ∃ ql w' n1', dqLoopA (dlo ++ [d0, d1]) d1 d0 dinv xs w n1 qs = (ql ++ qs, w', n1') ∧
+        ql.length = xs.length ∧ Limbs ql ∧
+        val xs.reverse + B ^ xs.length * (val w + B ^ (dlo.length + 1) * n1)
+          = val ql * val (dlo ++ [d0, d1]) + (val w' + B ^ (dlo.length + 1) * n1') ∧
+        val w' + B ^ (dlo.length + 1) * n1' < val (dlo ++ [d0, d1]) ∧
+        Limbs w' ∧ w'.length = dlo.length + 1 ∧ n1' < B
+  | [], w, n1, qs, _, hw, hwl, hn1, hR => by
+    refine ⟨[], w, n1, rfl, rfl, Limbs_nil, by simp, hR, hw, hwl, hn1⟩
+  | x :: xs, w, n1, qs, hxs, hw, hwl, hn1, hR => by
+    have ⟨hx, hxs'⟩ := Limbs_cons.mp hxs
+    have ha : Limbs (x :: w) := Limbs_cons.mpr ⟨hx, hw⟩
+    have hal : (x :: w).length = dlo.length + 2 := by simp [hwl]
+    have hsplit := split_top2 (x :: w) dlo.length hal
+    have halo : Limbs ((x :: w).take dlo.length) := Limbs_take ha _
+    have hm0 := limb_getD ha dlo.length
+    have hm1 := limb_getD ha (dlo.length + 1)
+    have hlen : ((x :: w).take dlo.length).length = dlo.length := by
+      rw [List.length_take, hal]; omega
+    generalize (x :: w).take dlo.length = alo at *
+    generalize (x :: w).getD dlo.length 0 = m0 at *
+    generalize (x :: w).getD (dlo.length + 1) 0 = m1 at *
+    have hW : val (alo ++ [m0, m1]) + B ^ (dlo.length + 2) * n1 < B * val (dlo ++ [d0, d1]) := by
+      rw [← hsplit, val_cons, pow_succ]
+      have : B * (val w + B ^ (dlo.length + 1) * n1 + 1) ≤ B * val (dlo ++ [d0, d1]) := Nat.mul_le_mul_left _ hR
+      have e : x + B * val w + B ^ (dlo.length + 1) * B * n1 + B
+          = B * (val w + B ^ (dlo.length + 1) * n1 + 1) + x := by ring
+      omega
+    obtain ⟨q, w1, n1a, es, h1, h2, hq, hw1, hw1l, hn1a⟩ :=
+      dqStepA_spec dlo alo d0 d1 m0 m1 n1 dinv hlen hdlo halo hd0 hd1 hm0 hm1 hn1 hnorm hdinv hW
+    obtain ⟨ql, w', n1', el, hqll, hql, h3, h4, hw', hw'l, hn1'⟩ :=
+      dqLoopA_spec dlo d0 d1 dinv hdlo hd0 hd1 hnorm hdinv xs w1 n1a (q :: qs) hxs' hw1 hw1l hn1a h2
+    rw [dqLoopA_cons, hsplit, es]
+    simp only []
+    rw [el]
+    refine ⟨ql ++ [q], w', n1', by simp, by simp [hqll], Limbs_snoc hql hq, ?_, h4, hw', hw'l, hn1'⟩
+    rw [List.reverse_cons, val_top1, val_top1, List.length_reverse, hqll, List.length_cons, pow_succ]
+    rw [← hsplit, val_cons, pow_succ] at h1
+    have e : val xs.reverse + B ^ xs.length * x + B ^ xs.length * B * (val w + B ^ (dlo.length + 1) * n1)
+        = val xs.reverse + B ^ xs.length * (x + B * val w + B ^ (dlo.length + 1) * B * n1) := by ring
+    rw [e, h1]
+    have e2 : (val ql + B ^ xs.length * q) * val (dlo ++ [d0, d1]) + (val w' + B ^ (dlo.length + 1) * n1')
+        = B ^ xs.length * (q * val (dlo ++ [d0, d1]))
+          + (val ql * val (dlo ++ [d0, d1]) + (val w' + B ^ (dlo.length + 1) * n1')) := by ring
+    rw [e2, ← h3]; ring
+
+theorem B_eq_succ2 : ∃ b2, B = b2 + 2 := ⟨2 ^ 64 - 2, by unfold B; norm_num⟩
+
+/-- arithmetic of the q = B-1 branch of the truncating loop (sb_div_q.c:118-134): `va` the memory limbs of the window,
+    `n1` its top limb, `vr`, `cy` the result and borrow of mpn_submul_1 by B-1 = b2+1; P = B^(len), Pl = P/B -/
+theorem bm1_arith (P Pl V va n1 cy vr d1 b2 : Nat) (hP : P = Pl * B) (hb : B = b2 + 2)
+    (hV2 : V < (d1 + 1) * Pl) (hva : va < P)
+    (hvr : vr < P) (hd1 : d1 < B) (hnorm : B ≤ 2 * d1) (hn1 : d1 ≤ n1)
+    (hsub : vr + V * (b2 + 1) = va + P * cy) :
+    (n1 = cy → va + P * n1 = (b2 + 1) * V + vr) ∧
+    (n1 < cy → P ≤ vr + V ∧ va + P * n1 + P = b2 * V + (vr + V) ∧ vr + V < V + P) ∧
+    (cy < n1 → (b2 + 1) * V + P ≤ va + P * n1) := by
+  have hVlt : V < P := by
+    have : (d1 + 1) * Pl ≤ B * Pl := Nat.mul_le_mul_right _ hd1
+    rw [hP]; nlinarith
+  refine ⟨?_, ?_, ?_⟩
+  · rintro rfl; linarith
+  · intro hlt
+    -- W > (B-2)·V
+    have hW : b2 * V < va + P * n1 := by
+      have h1 : P * d1 ≤ P * n1 := Nat.mul_le_mul_left _ hn1
+      have h2 : b2 * V ≤ b2 * ((d1 + 1) * Pl) := Nat.mul_le_mul_left _ hV2.le
+      have hPl : 0 < Pl := by
+        rcases Nat.eq_zero_or_pos Pl with h | h
+        · subst h; rw [hP] at hva; simp at hva
+        · exact h
+      have h3 : b2 * ((d1 + 1) * Pl) + 2 * Pl ≤ P * d1 := by
+        have h4 : b2 * (d1 + 1) + 2 ≤ B * d1 := by rw [hb]; nlinarith
+        have : Pl * (b2 * (d1 + 1) + 2) ≤ Pl * (B * d1) := Nat.mul_le_mul_left _ h4
+        rw [hP]; nlinarith
+      omega
+    obtain ⟨e, he⟩ : ∃ e, cy = n1 + 1 + e := ⟨cy - n1 - 1, by omega⟩
+    have hle : P * (n1 + 1 + e) = P * n1 + P + P * e := by ring
+    rw [he, hle] at hsub
+    have he0 : e = 0 := by
+      rcases Nat.eq_zero_or_pos e with h | h
+      · exact h
+      · exfalso
+        have : P * 1 ≤ P * e := Nat.mul_le_mul_left _ h
+        nlinarith
+    subst he0
+    simp only [Nat.mul_zero, Nat.add_zero] at hsub
+    refine ⟨by nlinarith, by linarith, by omega⟩
+  · intro hlt
+    obtain ⟨e, he⟩ : ∃ e, n1 = cy + 1 + e := ⟨n1 - cy - 1, by omega⟩
+    subst he
+    have hle : P * (cy + 1 + e) = P * cy + P + P * e := by ring
+    rw [hle]
+    nlinarith [Nat.zero_le (P * e)]
+
 end Mpir.SbDivQ
